@@ -204,7 +204,9 @@ def logical_records(model):
             recs.append({'eflr': True, 'type': 5, 'raw': encode_set('PARAMETER', '', PARAM_TEMPLATE, objs, mk := []), 'what': ('PARAMETER', li), 'marks': mk})
         chans = lf['channels']
         cobjs = []
-        for ch in chans:
+        # the order in which the CHANNEL set defines its objects is independent of the order in which frames record them
+        order_ = lf.get('chan_order') or list(range(len(chans)))
+        for ch in [chans[i_] for i_ in order_]:
             cobjs.append(((o, 0, ch['name']), [[ch.get('long', ch['name'])], None, [ch['rep']], [ch.get('units', '')] if ch.get('units') is not None else None,
                                               list(ch['dims']), None, list(ch['dims']), None]))
         recs.append({'eflr': True, 'type': 3, 'raw': encode_set('CHANNEL', '', CHANNEL_TEMPLATE, cobjs, mk := []), 'what': ('CHANNEL', li), 'marks': mk})
@@ -362,7 +364,11 @@ def gen_lf(rng, li, max_frames=30, names_pool=None, origin=None, waves=False):
                 'CNTY', 'CTRY', 'PROV', 'API', 'UWI', 'VERS', 'WRAP']
         for nm in rng.sample(pool, rng.randrange(1, 5)):
             params.append([nm, rng.pick(['NORTH SEA', '15/17-9', 'UK', '  padded  ', 'a b c', '1234.5', '0.5', '-999.25']), nm.strip() + ' description'])
-    return {'id': rng.pick(['MAIN PASS', 'REPEAT', 'auto_las_survey', 'X']) + f' {li}', 'origin': origin if origin is not None else rng.pick([1, 11, 41, 200]),
+    chan_order = None
+    if rng.chance(0.3):
+        chan_order = list(range(len(channels)))
+        rng.shuffle(chan_order)
+    return {'chan_order': chan_order, 'id': rng.pick(['MAIN PASS', 'REPEAT', 'auto_las_survey', 'X']) + f' {li}', 'origin': origin if origin is not None else rng.pick([1, 11, 41, 200]),
             'well': rng.pick(['PRASLIN 1', 'WELL #7', '29/10-3']), 'params': params, 'channels': channels, 'frames': frames, 'order': order}
 
 
